@@ -1,6 +1,9 @@
 package main
 
 import (
+	"sync/atomic"
+	"path"
+	"net/http"
 	"bytes"
 	"encoding/binary"
 	"fmt"
@@ -439,7 +442,34 @@ func runC04(cfg Config) {
 			ts := httptest.NewServer(desync.NewHTTPIndexHandler(ls, true, ""))
 			u, _ := url.Parse(ts.URL + "/")
 			hs, _ := desync.NewRemoteHTTPIndexStore(u, desync.StoreOptions{})
-			stores := map[string]desync.IndexWriteStore{"local": ls, "http": hs}
+			// a plain HTTP object server that answers 503 to every other PUT after having read its body: the first
+			// attempt of each StoreIndex fails within the retry budget and the retry must carry the whole index again
+			var puts int64
+			flaky := httptest.NewServer(http.HandlerFunc(func(w http.ResponseWriter, r *http.Request) {
+				name := filepath.Join(dir, path.Base(r.URL.Path))
+				switch r.Method {
+				case "PUT":
+					b, _ := io.ReadAll(r.Body)
+					if atomic.AddInt64(&puts, 1)%2 == 1 {
+						w.WriteHeader(http.StatusServiceUnavailable)
+						return
+					}
+					os.WriteFile(name, b, 0644)
+				case "GET":
+					b, err := os.ReadFile(name)
+					if err != nil {
+						w.WriteHeader(http.StatusNotFound)
+						return
+					}
+					w.Write(b)
+				default:
+					w.WriteHeader(http.StatusMethodNotAllowed)
+				}
+			}))
+			defer flaky.Close()
+			fu, _ := url.Parse(flaky.URL + "/")
+			fs, _ := desync.NewRemoteHTTPIndexStore(fu, desync.StoreOptions{ErrorRetry: 3, ErrorRetryBaseInterval: 0})
+			stores := map[string]desync.IndexWriteStore{"local": ls, "http": hs, "http-flaky": fs}
 			for it := 0; it < cfg.N(60, 1200); it++ {
 				for kind, st := range stores {
 					name := fmt.Sprintf("%s-%d.caibx", kind, it%7) // names are reused: later indexes overwrite earlier ones
